@@ -426,15 +426,15 @@ Proof.
     unfold s0 in *; simp_r. unfold StepLaw, PInv, paccepted, inq, rdl, sendingl, wloss, rloss, wire_taken, snd_freed, arrived_ok, rx_rejected. simp_r.
     rewrite N.eqb_refl. rewrite F1, F4, F5, F6, F7, FR, DL, HP.
     split; [|split; [|split; [|split; [|split; [|split; [|split; [|split]]]]]]]; auto.
-    + repeat split; auto; try discriminate; try solve [apply J1; assumption]; try solve [apply I2; assumption]; try solve [apply I3; assumption].
-    + rewrite C1. now rewrite !app_nil_r.
-    + intros x. specialize (C2 x). pose proof (cnt_set_snd_none x (pr_sending s) p) as P. unfold sendingl in *. simp_r. msimp. lia.
-    + intros x. msimp. lia.
-    + intros _. now rewrite app_nil_r.
-    + cbn [app]. rewrite app_nil_r. apply sublist_refl.
-    + intros x. msimp. lia.
-    + intros q m Hq. f_equal. symmetry. eapply TS; eauto.
-    + intros q Hq. exfalso. eapply TR; eauto.
+    all: try reflexivity.
+    all: try solve [repeat split; auto; try discriminate; try solve [apply J1; assumption]; try solve [apply I2; assumption]; try solve [apply I3; assumption]].
+    all: try solve [rewrite C1; now rewrite !app_nil_r].
+    all: try solve [intros x; specialize (C2 x); pose proof (cnt_set_snd_none x (pr_sending s) p) as P; unfold sendingl in *; simp_r; msimp; lia].
+    all: try solve [intros x; msimp; lia].
+    all: try solve [intros _; now rewrite app_nil_r].
+    all: try solve [cbn [app]; rewrite app_nil_r; apply sublist_refl].
+    all: try solve [intros q m Hq; f_equal; symmetry; eapply TS; eauto].
+    all: try solve [intros q Hq; exfalso; eapply TR; eauto].
   - (* failure: the message is freed, the pipe closed; no socket state is touched *)
     destruct Hok as [Hin _]. open_state s. inversion H; subst; clear H; simp_r.
     destruct (N.eqb_spec rv 0); [contradiction|].
@@ -456,7 +456,7 @@ Proof.
   destruct (pr_p s) as [q|] eqn:EP.
   { inversion H; subst. apply law_trivial; auto; try reflexivity; try (intros ? ? [E|[]]; inversion E); try (intros ? [E|[]]; inversion E). }
   assert (WR: pr_wr s = false).
-  { destruct (pr_wr s) eqn:W; auto. destruct (I1 eq_refl) as (A & _). rewrite EP in A. contradiction. }
+  { destruct (pr_wr s) eqn:W; auto. destruct (I1 eq_refl) as (A & _). destruct A. }
   assert (RD: pr_rd s = None).
   { destruct (pr_rd s) eqn:R; auto. destruct I2 as [A _]; [discriminate|]. congruence. }
   set (s1 := mkPair (Some p) (pr_ttl s) (pr_wmq s) (pr_wcap s) (pr_waq s) (pr_rmq s) (pr_rcap s) (pr_raq s) None (pr_wr s)
@@ -469,15 +469,15 @@ Proof.
   rewrite !pacc_app, !pdelivered_app, !txs_app, !freed_app. cbn [pacc pdelivered txs freed].
   rewrite F1, F4, F5, F6, F7, FR, DL, RD.
   split; [|split; [|split; [|split; [|split; [|split; [|split; [|split]]]]]]]; auto.
-  + repeat split; auto; try discriminate; try congruence; try solve [apply J1; assumption]; try solve [apply I2; assumption]; try solve [apply I3; assumption].
-  + rewrite !app_nil_r. rewrite C1. reflexivity.
-  + intros x. specialize (C2 x). unfold sendingl in *. simp_r. msimp. lia.
-  + intros x. msimp. lia.
-  + intros _. now rewrite !app_nil_r.
-  + cbn [app]. rewrite !app_nil_r. apply sublist_refl.
-  + intros x. unfold attached. rewrite EP. msimp. lia.
-  + intros q m Hq. apply in_app_or in Hq as [Hq|[E|[]]]; [|inversion E]. f_equal. symmetry. eapply TS; eauto.
-  + intros q Hq. apply in_app_or in Hq as [Hq|[E|[]]]; [exfalso; eapply TR; eauto|]. inversion E. reflexivity.
+  all: try reflexivity.
+  all: try solve [repeat split; auto; try discriminate; try congruence; try solve [apply J1; assumption]; try solve [apply I2; assumption]; try solve [apply I3; assumption]].
+  all: try solve [rewrite !app_nil_r; rewrite C1; reflexivity].
+  all: try solve [intros x; specialize (C2 x); unfold sendingl in *; simp_r; msimp; lia].
+  all: try solve [intros x; unfold attached; rewrite ?EP; msimp; lia].
+  all: try solve [intros _; now rewrite !app_nil_r].
+  all: try solve [cbn [app]; rewrite !app_nil_r; apply sublist_refl].
+  all: try solve [intros q m Hq; apply in_app_or in Hq as [Hq|[E|[]]]; [|inversion E]; f_equal; symmetry; eapply TS; eauto].
+  all: try solve [intros q Hq; apply in_app_or in Hq as [Hq|[E|[]]]; [exfalso; eapply TR; eauto|]; inversion E; reflexivity].
 Qed.
 
 Lemma law_PSetOpt s c op s' outs :
@@ -537,6 +537,141 @@ Proof.
   - cbn [pair_step] in H. inversion H; subst. apply law_trivial; auto; try reflexivity; try (intros ? ? []); try (intros ? []).
   - eapply law_PSockClose; eauto.
   - cbn [pair_step] in H. inversion H; subst. apply law_trivial; auto; try reflexivity; try (intros ? ? []); try (intros ? []).
+Qed.
+
+(* ================= the poll descriptors ================= *)
+Ltac open_flags s :=
+  destruct s as [p0 ttl wmq wcap waq rmq rcap raq rd wr sn rdb wrb];
+  unfold PInv, RInv, WInv, can_recv, can_send, op_ok in *; simp_r.
+Ltac bool_crunch :=
+  repeat match goal with
+         | |- context[if ?b then _ else _] => destruct b eqn:?
+         | H : context[if ?b then _ else _] |- _ => destruct b eqn:?
+         end; cbn in *; try congruence; try reflexivity.
+
+Theorem pair_readable_mirror s o s' outs :
+  PInv s -> op_ok s o -> o <> PSockClose -> RInv s -> pair_step k fx s o = (s', outs) -> RInv s'.
+Proof.
+  intros HI Hok Hns HR H. pose proof HI as (I1 & I2 & I3 & I4 & I5 & I6 & I7).
+  destruct o as [c a nb m|c a nb|a rv|p peer|p|p rv|p rv m| c op|c|c| |now]; cbn [pair_step] in H.
+  - (* PSend: receive side untouched *)
+    destruct (norm_send k m); [|inversion H; subst; exact HR].
+    open_flags s. destruct wr; [destruct p0|destruct (lmq_full wmq wcap); [destruct nb|]]; inversion H; subst; simp_r; exact HR.
+  - (* PRecv *)
+    open_flags s. destruct rmq as [|m rest].
+    + destruct rd; [|destruct nb]; inversion H; subst; simp_r; auto.
+    + destruct rd as [h|].
+      * cbn [length] in I5. rewrite lmq_put_ok in H by lia. inversion H; subst; simp_r.
+        destruct rest; cbn in *; auto.
+      * inversion H; subst; simp_r. destruct rest; cbn in *; auto.
+  - open_flags s. destruct (has_aio a waq); [|destruct (has_id a raq)]; inversion H; subst; simp_r; exact HR.
+  - (* PPipeStart *)
+    destruct (negb (peer =? pair_peer k)%N); [inversion H; subst; exact HR|].
+    destruct (pr_p s) eqn:EP; [inversion H; subst; exact HR|].
+    assert (WR: pr_wr s = false).
+    { destruct (pr_wr s) eqn:W; auto. destruct (I1 eq_refl) as (A & _). destruct A. }
+    assert (RD: pr_rd s = None).
+    { destruct (pr_rd s) eqn:R; auto. destruct I2 as [A _]; [discriminate|]. congruence. }
+    set (s1 := mkPair (Some p) (pr_ttl s) (pr_wmq s) (pr_wcap s) (pr_waq s) (pr_rmq s) (pr_rcap s) (pr_raq s) None (pr_wr s)
+                      (pr_sending s) (pr_readable s) (pr_writable s)) in *.
+    destruct (pair_send_sched k s1) as [s2 o2] eqn:SS. inversion H; subst; clear H. cbn [op_ok] in Hok.
+    destruct (sched_law s1 p (PPipeStart p peer) s' o2 ltac:(intros; discriminate) eq_refl Hok WR I4 I6 I7 SS)
+      as (_ & (F1 & F2 & F3 & F4 & F5 & F6 & F7 & F8) & _).
+    unfold RInv, can_recv in *. rewrite F4, F7, F8. unfold s1; simp_r. rewrite HR, RD. reflexivity.
+  - (* PPipeClose *)
+    open_flags s. destruct p0 as [q|]; [destruct (q =? p)%N|]; inversion H; subst; simp_r; auto.
+    destruct rmq; cbn in *; auto. destruct rd; auto.
+  - (* PSendDone *)
+    destruct (negb (rv =? 0)%N) eqn:ER.
+    + open_flags s. inversion H; subst; simp_r; exact HR.
+    + destruct (N.eqb_spec rv 0) as [->|]; [|discriminate]. destruct Hok as [Hin HP]. specialize (HP eq_refl).
+      assert (WR: pr_wr s = false).
+      { destruct (pr_wr s) eqn:W; auto. destruct (I1 eq_refl) as (A & _). rewrite HP in A. contradiction. }
+      set (s0 := mkPair (pr_p s) (pr_ttl s) (pr_wmq s) (pr_wcap s) (pr_waq s) (pr_rmq s) (pr_rcap s) (pr_raq s) (pr_rd s) (pr_wr s)
+                        (set_snd (pr_sending s) p None) (pr_readable s) (pr_writable s)) in *.
+      destruct (sched_law s0 p (PSendDone p 0) s' outs ltac:(intros; discriminate) HP (set_snd_none_notin _ _) WR I4 I6
+                  (set_snd_none_nodup _ _ I7) H) as (_ & (F1 & F2 & F3 & F4 & F5 & F6 & F7 & F8) & _).
+      unfold RInv, can_recv in *. rewrite F4, F7, F8. unfold s0; simp_r. exact HR.
+  - (* PRecvDone *)
+    open_flags s. destruct (negb (rv =? 0)%N); [inversion H; subst; exact HR|].
+    destruct (rx_decode k ttl m); try (inversion H; subst; exact HR).
+    destruct raq as [|a rest].
+    + destruct (lmq_full rmq rcap); cbn [negb] in H; inversion H; subst; simp_r.
+      * destruct rmq; reflexivity.
+      * destruct rmq; reflexivity.
+    + assert (RQ: rmq = []) by (apply I3; discriminate). inversion H; subst; simp_r. exact HR.
+  - (* PSetOpt *)
+    open_flags s. destruct op; try (inversion H; subst; exact HR).
+    + destruct (PAIR_BUF_MAX <? N.of_nat n)%N; inversion H; subst; simp_r; exact HR.
+    + destruct (PAIR_BUF_MAX <? N.of_nat n)%N; inversion H; subst; simp_r; [exact HR|].
+      destruct (firstn n rmq); cbn; auto. destruct rd; auto.
+    + destruct k; [inversion H; subst; exact HR|].
+      destruct ((n <? PAIR_TTL_MIN) || (PAIR_TTL_MAX <? n)); inversion H; subst; simp_r; exact HR.
+  - inversion H; subst; exact HR.
+  - inversion H; subst; exact HR.
+  - congruence.
+  - inversion H; subst; exact HR.
+Qed.
+
+(* the send descriptor: every step keeps it equal to "a non-blocking send would not get
+   NNG_EAGAIN", except -- in the pinned source (fx = false) -- pipe_stop *)
+Theorem pair_writable_mirror s o s' outs :
+  PInv s -> op_ok s o -> o <> PSockClose -> (fx = true \/ forall p, o <> PPipeClose p) ->
+  WInv s -> pair_step k fx s o = (s', outs) -> WInv s'.
+Proof.
+  intros HI Hok Hns Hfx HW H. pose proof HI as (I1 & I2 & I3 & I4 & I5 & I6 & I7).
+  destruct o as [c a nb m|c a nb|a rv|p peer|p|p rv|p rv m| c op|c|c| |now]; cbn [pair_step] in H.
+  - (* PSend *)
+    destruct (norm_send k m); [|inversion H; subst; exact HW].
+    open_flags s. destruct wr.
+    + destruct (I1 eq_refl) as (A & B & C). subst. destruct p0; [|contradiction]. inversion H; subst; simp_r.
+      unfold lmq_full in *. cbn [length] in *. destruct (wcap <=? 0); cbn in *; auto.
+    + destruct (lmq_full wmq wcap) eqn:F; cbn [negb] in H.
+      * destruct nb; inversion H; subst; simp_r; auto.
+      * inversion H; subst; simp_r. rewrite F in HW. cbn in *. destruct (lmq_full (wmq ++ [n]) wcap); cbn; auto.
+  - (* PRecv: send side untouched *)
+    open_flags s. destruct rmq as [|m rest]; [destruct rd; [|destruct nb]|destruct rd]; inversion H; subst; simp_r; exact HW.
+  - open_flags s. destruct (has_aio a waq); [|destruct (has_id a raq)]; inversion H; subst; simp_r; exact HW.
+  - (* PPipeStart *)
+    destruct (negb (peer =? pair_peer k)%N); [inversion H; subst; exact HW|].
+    destruct (pr_p s) eqn:EP; [inversion H; subst; exact HW|].
+    assert (WR: pr_wr s = false).
+    { destruct (pr_wr s) eqn:W; auto. destruct (I1 eq_refl) as (A & _). destruct A. }
+    set (s1 := mkPair (Some p) (pr_ttl s) (pr_wmq s) (pr_wcap s) (pr_waq s) (pr_rmq s) (pr_rcap s) (pr_raq s) None (pr_wr s)
+                      (pr_sending s) (pr_readable s) (pr_writable s)) in *.
+    destruct (pair_send_sched k s1) as [s2 o2] eqn:SS. inversion H; subst; clear H. cbn [op_ok] in Hok.
+    destruct (sched_law s1 p (PPipeStart p peer) s' o2 ltac:(intros; discriminate) eq_refl Hok WR I4 I6 I7 SS)
+      as (_ & _ & _ & _ & _ & _ & _ & _ & _ & W). apply W. exact HW.
+  - (* PPipeClose *)
+    open_flags s. destruct p0 as [q|]; [destruct (q =? p)%N eqn:EQ|]; inversion H; subst; simp_r; auto.
+    destruct wr; [|exact HW]. destruct Hfx as [->|Hn]; [|exfalso; eapply Hn; reflexivity].
+    cbn. destruct (I1 eq_refl) as (A & B & C). subst. destruct (lmq_full [] wcap) eqn:F; cbn; auto. rewrite HW. cbn. reflexivity.
+  - (* PSendDone *)
+    destruct (negb (rv =? 0)%N) eqn:ER.
+    + open_flags s. inversion H; subst; simp_r; exact HW.
+    + destruct (N.eqb_spec rv 0) as [->|]; [|discriminate]. destruct Hok as [Hin HP]. specialize (HP eq_refl).
+      assert (WR: pr_wr s = false).
+      { destruct (pr_wr s) eqn:W; auto. destruct (I1 eq_refl) as (A & _). rewrite HP in A. contradiction. }
+      set (s0 := mkPair (pr_p s) (pr_ttl s) (pr_wmq s) (pr_wcap s) (pr_waq s) (pr_rmq s) (pr_rcap s) (pr_raq s) (pr_rd s) (pr_wr s)
+                        (set_snd (pr_sending s) p None) (pr_readable s) (pr_writable s)) in *.
+      destruct (sched_law s0 p (PSendDone p 0) s' outs ltac:(intros; discriminate) HP (set_snd_none_notin _ _) WR I4 I6
+                  (set_snd_none_nodup _ _ I7) H) as (_ & _ & _ & _ & _ & _ & _ & _ & _ & W). apply W. exact HW.
+  - (* PRecvDone: send side untouched *)
+    open_flags s. destruct (negb (rv =? 0)%N); [inversion H; subst; exact HW|].
+    destruct (rx_decode k ttl m); try (inversion H; subst; exact HW).
+    destruct raq; [destruct (lmq_full rmq rcap); cbn [negb] in H|]; inversion H; subst; simp_r; exact HW.
+  - (* PSetOpt *)
+    open_flags s. destruct op; try (inversion H; subst; exact HW).
+    + destruct (PAIR_BUF_MAX <? N.of_nat n)%N; inversion H; subst; simp_r; [exact HW|].
+      destruct (lmq_full (firstn n wmq) n); cbn; [|now rewrite orb_true_r]. destruct wr; cbn; auto.
+      rewrite HW. reflexivity.
+    + destruct (PAIR_BUF_MAX <? N.of_nat n)%N; inversion H; subst; simp_r; exact HW.
+    + destruct k; [inversion H; subst; exact HW|].
+      destruct ((n <? PAIR_TTL_MIN) || (PAIR_TTL_MAX <? n)); inversion H; subst; simp_r; exact HW.
+  - inversion H; subst; exact HW.
+  - inversion H; subst; exact HW.
+  - congruence.
+  - inversion H; subst; exact HW.
 Qed.
 
 End Pair.
